@@ -412,8 +412,269 @@ func TestVerifDump(t *testing.T) {
 		})
 		return false
 	})
-	b, _ := json.Marshal(map[string]interface{}{"multipleMatchSkeleton": events})
+	locks := vlockSkeletons(t)
+	b, _ := json.Marshal(map[string]interface{}{"multipleMatchSkeleton": events, "locks": locks})
 	if err := os.WriteFile(os.Getenv("VERIF_OUT")+"/v1protocol.json", b, 0o644); err != nil {
 		t.Fatal(err)
 	}
+}
+
+
+// ---------------------------------------------------------------------------
+// Lock-region skeletons for the map `values` guarded by `muValues` (LC/Model/RW.lean): every
+// function and every goroutine literal of the package's non-test files that mentions either, as a
+// Lean term of type LC.RW.Blk. The extractor only reports; LC.RW.accepts decides.
+
+func vlockSkeletons(t *testing.T) [][2]string {
+	fset := gotoken.NewFileSet()
+	pkgs, err := parser.ParseDir(fset, ".", func(fi os.FileInfo) bool { return !strings.HasSuffix(fi.Name(), "_test.go") }, 0)
+	if err != nil {
+		t.Fatal(err)
+	}
+	isValues := func(e ast.Expr) bool { // the selector `<x>.values`
+		se, ok := e.(*ast.SelectorExpr)
+		return ok && se.Sel.Name == "values"
+	}
+	mentions := func(n ast.Node, name string) bool {
+		found := false
+		if n == nil {
+			return false
+		}
+		ast.Inspect(n, func(m ast.Node) bool {
+			if se, ok := m.(*ast.SelectorExpr); ok && se.Sel.Name == name {
+				found = true
+			}
+			if _, ok := m.(*ast.FuncLit); ok {
+				return false // a literal's body is a skeleton of its own (goroutine) or inlined below
+			}
+			return true
+		})
+		return found
+	}
+	muCall := func(e ast.Expr) string { // muValues.Lock() etc.
+		ce, ok := e.(*ast.CallExpr)
+		if !ok {
+			return ""
+		}
+		se, ok := ce.Fun.(*ast.SelectorExpr)
+		if !ok {
+			return ""
+		}
+		x, ok := se.X.(*ast.SelectorExpr)
+		if !ok || x.Sel.Name != "muValues" {
+			return ""
+		}
+		return se.Sel.Name
+	}
+	var out [][2]string
+	var lits []*ast.FuncLit
+	var blk func(stmts []ast.Stmt, inLoop bool) string
+	cons := func(items []string) string {
+		r := ".nil"
+		for i := len(items) - 1; i >= 0; i-- {
+			r = "(.cons " + items[i] + " " + r + ")"
+		}
+		return r
+	}
+	rdIf := func(n ast.Node) []string {
+		if mentions(n, "values") {
+			return []string{"(.s (.a .rd))"}
+		}
+		return nil
+	}
+	var stmt func(st ast.Stmt, inLoop bool) []string
+	stmt = func(st ast.Stmt, inLoop bool) []string {
+		switch x := st.(type) {
+		case nil:
+			return nil
+		case *ast.ExprStmt:
+			switch muCall(x.X) {
+			case "Lock":
+				return []string{"(.s (.a .lock))"}
+			case "Unlock":
+				return []string{"(.s (.a .unlock))"}
+			case "RLock":
+				return []string{"(.s (.a .rlock))"}
+			case "RUnlock":
+				return []string{"(.s (.a .runlock))"}
+			}
+			if ce, ok := x.X.(*ast.CallExpr); ok {
+				if id, ok := ce.Fun.(*ast.Ident); ok && (id.Name == "delete" || id.Name == "clear") && len(ce.Args) > 0 && mentions(ce.Args[0], "values") {
+					return []string{"(.s (.a .wr))"}
+				}
+			}
+			return rdIf(x)
+		case *ast.DeferStmt:
+			switch muCall(x.Call) {
+			case "Unlock":
+				return []string{"(.s .deferUnlock)"}
+			case "RUnlock":
+				return []string{"(.s .deferRUnlock)"}
+			case "Lock", "RLock":
+				return []string{"(.s .alias)"} // a deferred acquisition: not a shape the checker knows
+			}
+			if fl, ok := x.Call.Fun.(*ast.FuncLit); ok && (mentions(fl.Body, "values") || mentions(fl.Body, "muValues")) {
+				return []string{"(.s .alias)"} // deferred closures touching the location: rejected
+			}
+			return rdIf(x.Call)
+		case *ast.GoStmt:
+			if fl, ok := x.Call.Fun.(*ast.FuncLit); ok {
+				lits = append(lits, fl)
+			}
+			var r []string
+			for _, a := range x.Call.Args {
+				r = append(r, rdIf(a)...)
+			}
+			return r
+		case *ast.ReturnStmt:
+			var r []string
+			for _, e := range x.Results {
+				r = append(r, rdIf(e)...)
+			}
+			return append(r, "(.s .ret)")
+		case *ast.BranchStmt:
+			if x.Tok == gotoken.GOTO || x.Tok == gotoken.FALLTHROUGH || x.Label != nil || !inLoop {
+				return []string{"(.s .alias)"} // labelled jumps / goto: not modelled, rejected
+			}
+			return []string{"(.s .jump)"}
+		case *ast.AssignStmt:
+			var r []string
+			for _, e := range x.Rhs {
+				if isValues(e) {
+					r = append(r, "(.s .alias)") // the map header escapes: m := c.values
+				} else {
+					r = append(r, rdIf(e)...)
+				}
+			}
+			for _, e := range x.Lhs {
+				if ix, ok := e.(*ast.IndexExpr); ok && mentions(ix.X, "values") {
+					r = append(r, "(.s (.a .wr))")
+				} else if isValues(e) {
+					r = append(r, "(.s (.a .wr))")
+				} else {
+					r = append(r, rdIf(e)...)
+				}
+			}
+			return r
+		case *ast.DeclStmt, *ast.IncDecStmt, *ast.SendStmt:
+			return rdIf(x)
+		case *ast.BlockStmt:
+			var r []string
+			for _, y := range x.List {
+				r = append(r, stmt(y, inLoop)...)
+			}
+			return r
+		case *ast.LabeledStmt:
+			return []string{"(.s .alias)"}
+		case *ast.IfStmt:
+			r := stmt(x.Init, inLoop)
+			r = append(r, rdIf(x.Cond)...)
+			body := blk(x.Body.List, inLoop)
+			switch e := x.Else.(type) {
+			case nil:
+				r = append(r, "(.opt "+body+")")
+			case *ast.BlockStmt:
+				r = append(r, "(.alt "+body+" "+blk(e.List, inLoop)+")")
+			default:
+				r = append(r, "(.alt "+body+" "+cons(stmt(e, inLoop))+")")
+			}
+			return r
+		case *ast.ForStmt:
+			r := stmt(x.Init, inLoop)
+			var b []string
+			b = append(b, rdIf(x.Cond)...)
+			for _, y := range x.Body.List {
+				b = append(b, stmt(y, true)...)
+			}
+			b = append(b, stmt(x.Post, true)...)
+			return append(r, "(.loop "+cons(b)+")")
+		case *ast.RangeStmt:
+			var r, b []string
+			if isValues(x.X) || mentions(x.X, "values") {
+				r = append(r, "(.s (.a .rd))")
+				b = append(b, "(.s (.a .rd))") // every iteration step reads the map
+			}
+			for _, y := range x.Body.List {
+				b = append(b, stmt(y, true)...)
+			}
+			return append(r, "(.loop "+cons(b)+")")
+		case *ast.SwitchStmt, *ast.TypeSwitchStmt, *ast.SelectStmt:
+			var r []string
+			var body *ast.BlockStmt
+			switch y := x.(type) {
+			case *ast.SwitchStmt:
+				r = append(r, stmt(y.Init, inLoop)...)
+				r = append(r, rdIf(y.Tag)...)
+				body = y.Body
+			case *ast.TypeSwitchStmt:
+				body = y.Body
+			case *ast.SelectStmt:
+				body = y.Body
+			}
+			for _, c := range body.List {
+				var cb []ast.Stmt
+				switch cc := c.(type) {
+				case *ast.CaseClause:
+					for _, e := range cc.List {
+						r = append(r, rdIf(e)...)
+					}
+					cb = cc.Body
+				case *ast.CommClause:
+					cb = cc.Body
+				}
+				// `break` inside a switch leaves the switch, not a loop: not modelled -> reject via inLoop=false
+				r = append(r, "(.opt "+blk(cb, false)+")")
+			}
+			return r
+		}
+		return rdIf(st)
+	}
+	blk = func(stmts []ast.Stmt, inLoop bool) string {
+		var items []string
+		for _, y := range stmts {
+			items = append(items, stmt(y, inLoop)...)
+		}
+		return cons(items)
+	}
+	var files []string
+	for _, p := range pkgs {
+		for fn := range p.Files {
+			files = append(files, fn)
+		}
+	}
+	sort.Strings(files)
+	for _, p := range pkgs {
+		for _, fn := range files {
+			f := p.Files[fn]
+			if f == nil {
+				continue
+			}
+			for _, d := range f.Decls {
+				fd, ok := d.(*ast.FuncDecl)
+				if !ok || fd.Body == nil {
+					continue
+				}
+				touches := false
+				ast.Inspect(fd.Body, func(m ast.Node) bool {
+					if se, ok := m.(*ast.SelectorExpr); ok && (se.Sel.Name == "values" || se.Sel.Name == "muValues") {
+						touches = true
+					}
+					return true
+				})
+				if !touches {
+					continue
+				}
+				lits = nil
+				out = append(out, [2]string{fd.Name.Name, blk(fd.Body.List, false)})
+				// goroutine literals started by this function: threads of their own
+				for k := 0; k < len(lits); k++ {
+					fl := lits[k]
+					if mentions(fl.Body, "values") || mentions(fl.Body, "muValues") {
+						out = append(out, [2]string{fmt.Sprintf("%s.go%d", fd.Name.Name, k), blk(fl.Body.List, false)})
+					}
+				}
+			}
+		}
+	}
+	return out
 }
